@@ -231,11 +231,22 @@ def check(ctx):
     ctx.floor('A10a', 3, 'destructured calls in the analyzers')
     ctx.floor('A12f', 2, 'delegating overrides')
     ctx.floor('A1', 10, 'persistent stores on the decode slice')
+    # memoised answers on the decode path: the key covers every parameter the stored answer depends on
+    from ..rules import persist as _ps
+    _ps.check_decode_memos(ctx)
+    from ..rules import shared as _shm
+    _shm.check_class_level_containers(ctx)
+    ctx.floor('A11m', 3, 'mutable containers created in class bodies')
 
 
 from ..selftest import V  # noqa: E402
 
 VARIANTS = [
+    V('constraint-without-open-choice-indexed', 'optimization/hierarchy/fast.py',
+      [("            i_choices = sorted([i_choice_nodes[node] for node in choice_constraint.nodes if node in i_choice_nodes])\n            if len(i_choices) <= 1:\n                continue\n",
+        "            if len(choice_constraint.nodes) <= 1:\n                continue\n            i_choices = sorted([i_choice_nodes[node] for node in choice_constraint.nodes if node in i_choice_nodes])\n")], key='A10e'),
+    V('exclusion-set-shared-by-all-processors', 'optimization/graph_processor.py',
+      [("    _n_combs_cutoff = 1e9\n", "    _n_combs_cutoff = 1e9\n    _excluded_cache: Set[Tuple[int, ...]] = set()\n"), ("        self._excluded_cache = set()\n", "")], key='A11m'),
     V('zero-choice-arity', 'optimization/hierarchy/fast.py',
       [("                return tuple(), graph.copy()\n", "                return graph.copy()\n")], key='_get_graph'),
     V('none-deref', 'optimization/hierarchy/fast.py',
